@@ -256,7 +256,7 @@ func enumC01(maxN int, visit func(WF)) int {
 func TestC01(t *testing.T) {
 	r := newRun(t, "C01")
 	defer r.finish()
-	maxN := r.pick(3, 5)
+	maxN := r.pick(3, 6)
 	i := 0
 	n := enumC01(maxN, func(w WF) {
 		if r.mine(i) {
@@ -266,9 +266,9 @@ func TestC01(t *testing.T) {
 	})
 	r.exhaustive(fmt.Sprintf("single node: all kinds/styles x N<=%d x every exec outcome sequence of length<=N+1 x fallback{ok,err,passthrough} x prep{ok,err} x post{action,empty,err}: %d cases", maxN, n))
 	g := wfGen{MaxLeaves: 1, Actions: prefixActions, PErr: 120, PExecErr: 450, MaxN: 8, Waits: true, MaxVisits: 1, FuelMax: 4}
-	rapidPart(r, "rand-single", r.pick(2500, 40000), g.gen, checkC01)
+	rapidPart(r, "rand-single", r.pick(2500, 120000), g.gen, checkC01)
 	g2 := wfGen{MaxLeaves: 5, MaxFlows: 3, Actions: prefixActions, PErr: 40, PExecErr: 300, MaxN: 4, Waits: true, MaxVisits: 3, FuelMax: 12, MaxRuns: 2}
-	rapidPart(r, "rand-flow", r.pick(2500, 40000), g2.gen, checkC01)
+	rapidPart(r, "rand-flow", r.pick(2500, 120000), g2.gen, checkC01)
 }
 
 func init() { registerReplay("C01", checkC01) }
